@@ -313,6 +313,8 @@ class Engine:
         self._prefix: List[Tuple[bool, bool, Any]] = []
         self._trace: List[Tuple[bool, bool, Any]] = []  # (taken, alt_feasible, key)
         self.nondeterminism = 0
+        self.exceptions: List[str] = []
+        self.n_exceptions = 0
         self._vars: Dict[str, Any] = {}
         self._model: Any = None
         self._decided: Dict[int, bool] = {}
@@ -625,9 +627,15 @@ class Engine:
                 res.status = "violation"
                 res.exc = ex
                 res.detail = ex.detail
-            except Exception as ex:  # unexpected exception out of the code under test
+            except Exception as ex:  # unexpected exception out of the harness / the code under test
                 res.status = "exception"
                 res.exc = ex
+                # never silent: a path that ended in an exception the harness did not account for has NOT been checked
+                if len(self.exceptions) < 3:
+                    import traceback as _tb
+
+                    self.exceptions.append(f"{ex!r} | " + " <- ".join(f"{f.name}:{f.lineno}" for f in _tb.extract_tb(ex.__traceback__)[-4:][::-1]))
+                self.n_exceptions += 1
             res.decisions = len(self._trace)
             if res.status != "infeasible":
                 try:
